@@ -379,19 +379,22 @@ def do_determinism(tier, seed):
     r1 = run_batches(exes, [dict(b, max_procs=1, weight=1) for b in batches], seed)
     r2 = run_batches(exes, [dict(b, max_procs=16, weight=1) for b in batches], seed)
     r3 = run_batches(exes, [dict(b, max_procs=5, weight=1, opts=dict(b.get("opts", {}), perturb=90)) for b in batches], seed)
+    # fourth execution: a fresh process for every single seed (nothing cached, nothing left over from earlier runs), first 16 seeds
+    r4 = run_batches(exes, [dict(b, count=min(b["count"], 16), max_procs=16, weight=1) for b in batches], seed)
     sig = lambda x: x["evhash"] + x["status"] + x["sched_hash"] + str(x["steps"])
-    rep = {"tier": tier, "seed": seed, "tree": th, "per_scenario": {}, "seeds": 0, "mismatch_workers": 0, "mismatch_fill": 0}
-    for b, a, c, d in zip(batches, r1, r2, r3):
-        ha, hc, hd = ({x["seed"]: sig(x) for x in r[0]} for r in (a, c, d))
+    rep = {"tier": tier, "seed": seed, "tree": th, "per_scenario": {}, "seeds": 0, "mismatch_workers": 0, "mismatch_fill": 0, "mismatch_fresh_process": 0}
+    for b, a, c, d, f in zip(batches, r1, r2, r3, r4):
+        ha, hc, hd, hf = ({x["seed"]: sig(x) for x in r[0]} for r in (a, c, d, f))
         mw = sum(1 for s_ in ha if hc.get(s_) != ha[s_])
         mf = sum(1 for s_ in ha if hd.get(s_) != ha[s_])
-        rep["per_scenario"][b["name"]] = {"seeds": len(ha), "mismatch_workers": mw, "mismatch_fill": mf}
-        rep["seeds"] += len(ha); rep["mismatch_workers"] += mw; rep["mismatch_fill"] += mf
+        mp = sum(1 for s_ in hf if ha.get(s_) != hf[s_])
+        rep["per_scenario"][b["name"]] = {"seeds": len(ha), "mismatch_workers": mw, "mismatch_fill": mf, "fresh_process_seeds": len(hf), "mismatch_fresh_process": mp}
+        rep["seeds"] += len(ha); rep["mismatch_workers"] += mw; rep["mismatch_fill"] += mf; rep["mismatch_fresh_process"] += mp
     rep["wall_s"] = round(time.time() - t0, 1)
     os.makedirs(os.path.join(OUT, "evidence"), exist_ok=True)
     json.dump(rep, open(os.path.join(OUT, "evidence", "determinism.json"), "w"), indent=1)
-    print("determinism: %d seeds x 3 executions, %d mismatches across worker counts, %d across heap fill patterns (%.0fs)" % (rep["seeds"], rep["mismatch_workers"], rep["mismatch_fill"], rep["wall_s"]))
-    return 0 if rep["mismatch_workers"] == 0 and rep["mismatch_fill"] == 0 else 2
+    print("determinism: %d seeds x 3 executions (+ fresh process per seed for 16 of each batch), mismatches: %d across worker counts, %d across heap fill patterns, %d fresh-process (%.0fs)" % (rep["seeds"], rep["mismatch_workers"], rep["mismatch_fill"], rep["mismatch_fresh_process"], rep["wall_s"]))
+    return 0 if rep["mismatch_workers"] == 0 and rep["mismatch_fill"] == 0 and rep["mismatch_fresh_process"] == 0 else 2
 
 
 def do_check(prop, tier, seed, extra):
